@@ -1,5 +1,5 @@
 SPECIFICATION Spec
-CONSTANTS MaxPg=3 InitN=2 MaxVer=2 MaxFrames=3 MaxTx=4 MaxGen=3 MaxDown=1 FixF1=TRUE FixF2=TRUE FixG1=TRUE ReqCtx=TRUE FixQ1=TRUE FixQ2=TRUE
+CONSTANTS MaxPg=3 InitN=2 MaxVer=2 MaxFrames=3 MaxTx=4 MaxGen=3 MaxDown=1 FixF1=TRUE FixF2=TRUE FixG1=TRUE ReqCtx=TRUE FixQ1=TRUE FixQ2=TRUE FixM2=TRUE
   Modes={"PASSIVE","TRUNCATE"} AppModes={"PASSIVE","TRUNCATE"} AtomicChk=TRUE WithCrash=FALSE
 VIEW view
 CHECK_DEADLOCK FALSE
